@@ -421,7 +421,7 @@ def m_as_str(m, c, a): return StrRef(as_rstr(a[0]))
 @model('String::len', 'str::len')
 def m_str_len(m, c, a):
     s = as_rstr(a[0])
-    return sum(len(ch.encode('utf-8')) if isinstance(ch, str) else 1 for ch in s.chars)
+    return sum(char_utf8_len(m, ch) for ch in s.chars)
 
 
 @model('String::push')
@@ -698,12 +698,16 @@ def m_str_index(m, c, a):
         n = 0
         for k, ch in enumerate(s.chars):
             if n == b: return k
-            n += len(ch.encode('utf-8')) if isinstance(ch, str) else 1
+            n += char_utf8_len(m, ch)
             if n > b: raise RustPanic('byte index is not a char boundary')
         if n == b: return len(s.chars)
         raise RustPanic('byte index out of range')
     if idx.ty == 'RangeFrom': return StrRef(RStr(s.chars[b2c(m.concretize(idx.fields[0].v)):]))
     if idx.ty == 'Range': return StrRef(RStr(s.chars[b2c(m.concretize(idx.fields[0].v)):b2c(m.concretize(idx.fields[1].v))]))
+    if idx.ty == 'RangeTo': return StrRef(RStr(s.chars[:b2c(m.concretize(idx.fields[0].v))]))
+    if idx.ty == 'RangeFull': return StrRef(RStr(s.chars))
+    if idx.ty == 'RangeInclusive': return StrRef(RStr(s.chars[b2c(m.concretize(idx.fields[0].v)):b2c(m.concretize(idx.fields[1].v) + 1)]))
+    if idx.ty == 'RangeToInclusive': return StrRef(RStr(s.chars[:b2c(m.concretize(idx.fields[0].v) + 1)]))
     raise Unsupported('str index ' + repr(idx))
 
 
@@ -1173,6 +1177,8 @@ def m_opt_combinators(m, callee, a):
 def m_iter_adapters(m, callee, a):
     key = canon_last(callee)
     it = a[0]
+    while isinstance(it, Ptr): it = it.cell.v       # all/any/position/find/nth take &mut self
+    if not isinstance(it, IterV): it = m_into_iter(m, '', [it])
     def drain():
         out = []
         while True:
@@ -1393,3 +1399,137 @@ def m_f64_methods(m, callee, a):
     if key == 'max': return Sym(z3.fpMax(ex, to_z3(y, 'f64')), 'f64')
     if key == 'mul_add': return Sym(z3.fpFMA(rm, ex, to_z3(y, 'f64'), to_z3(a[2], 'f64')), 'f64')
     raise Unsupported('f64 method on a symbolic value: ' + callee)
+
+
+# ------------------------------------------------------------------ operator traits on scalars, more str / f64 helpers
+
+@model(re.compile(r'^<.* as (Add|Sub|Mul|Div|Rem|Neg|AddAssign|SubAssign|MulAssign|DivAssign)>::\w+$'))
+def m_scalar_ops(m, callee, a):
+    tr = re.search(r' as (\w+)', callee).group(1)
+    mt = re.match(r'^<&?(?:mut )?(\w+)', callee)
+    ty = mt.group(1) if mt else ''
+    x = deref_char(a[0]); y = deref_char(a[1]) if len(a) > 1 else None
+    if isinstance(x, RStr) or isinstance(a[0], RStr):
+        raise Unsupported('operator trait on strings: ' + callee)
+    assign = tr.endswith('Assign')
+    base = tr[:-6] if assign else tr
+    if ty == 'f64' or isinstance(x, float) or (isinstance(x, Sym) and x.ty == 'f64'):
+        if base == 'Neg': r = m.rvalue_unop_neg(x) if hasattr(m, 'rvalue_unop_neg') else (Sym(z3.fpNeg(x.e), 'f64') if isinstance(x, Sym) else -x)
+        else: r = m.binop(base, x, y)
+    else:
+        ity = ty if ty in INT_BITS else (x.ty if isinstance(x, Sym) else 'i64')
+        if base == 'Neg':
+            r = m.binop('SubWithOverflow', Sym(z3.BitVecVal(0, INT_BITS[ity]), ity), x if isinstance(x, Sym) else Sym(z3.BitVecVal(x, INT_BITS[ity]), ity))
+            if m.branch(r.fields[1].v): raise RustPanic('attempt to negate with overflow')
+            r = r.fields[0].v
+            if isinstance(r, Sym) and z3.is_bv_value(z3.simplify(r.e)): r = wrap_int(z3.simplify(r.e).as_long(), ity)
+        elif base in ('Add', 'Sub', 'Mul'):
+            sx = x if isinstance(x, Sym) else Sym(z3.BitVecVal(x, INT_BITS[ity]), ity)
+            sy = y if isinstance(y, Sym) else Sym(z3.BitVecVal(y, INT_BITS[ity]), ity)
+            rr = m.binop(base + 'WithOverflow', sx, sy)
+            if m.branch(rr.fields[1].v): raise RustPanic('attempt to %s with overflow' % {'Add': 'add', 'Sub': 'subtract', 'Mul': 'multiply'}[base])
+            r = rr.fields[0].v
+            if not isinstance(x, Sym) and not isinstance(y, Sym): r = wrap_int({'Add': x + y, 'Sub': x - y, 'Mul': x * y}[base], ity)
+        else:
+            if m.branch(m.binop('Eq', y, 0)): raise RustPanic('attempt to divide by zero')
+            from .machine import int_range
+            lo = int_range(ity)[0]
+            if ity[0] == 'i' and m.branch(m.binop('Eq', x, lo)) and m.branch(m.binop('Eq', y, -1)): raise RustPanic('attempt to divide with overflow')
+            if isinstance(x, Sym) or isinstance(y, Sym):
+                sx = x if isinstance(x, Sym) else Sym(z3.BitVecVal(x, INT_BITS[ity]), ity)
+                sy = y if isinstance(y, Sym) else Sym(z3.BitVecVal(y, INT_BITS[ity]), ity)
+                r = m.binop(base, sx, sy)
+            else:
+                q = abs(x) // abs(y); q = q if (x < 0) == (y < 0) else -q
+                r = q if base == 'Div' else x - q * y
+    if assign:
+        a[0].cell.v = r
+        return UNIT
+    return r
+
+
+@model('f64::total_cmp')
+def m_total_cmp(m, c, a):
+    x, y = deref_char(a[0]), deref_char(a[1])
+    def key(v):
+        # IEEE totalOrder through the sign-magnitude bit trick
+        if isinstance(v, Sym):
+            b = z3.fpToIEEEBV(v.e)
+            return z3.If(z3.Extract(63, 63, b) == 1, ~b, b | z3.BitVecVal(1 << 63, 64))
+        import struct
+        bits = struct.unpack('<Q', struct.pack('<d', v))[0]
+        return z3.BitVecVal((~bits) & ((1 << 64) - 1) if bits >> 63 else bits | (1 << 63), 64)
+    kx, ky = key(x), key(y)
+    if m.branch(Sym(z3.ULT(kx, ky), 'bool')): return ordering(-1)
+    if m.branch(Sym(z3.UGT(kx, ky), 'bool')): return ordering(1)
+    return ordering(0)
+
+
+@model('i64::cmp', 'usize::cmp', 'i32::cmp', 'u64::cmp')
+def m_int_cmp(m, c, a):
+    x, y = deref_char(a[0]), deref_char(a[1])
+    if m.branch(m.binop('Lt', x, y)): return ordering(-1)
+    if m.branch(m.binop('Gt', x, y)): return ordering(1)
+    return ordering(0)
+
+
+@model('str::rfind')
+def m_rfind(m, c, a):
+    s, p = as_rstr(a[0]).chars, _pattern(m, a[1])
+    offs = [0]
+    for ch in s: offs.append(offs[-1] + char_utf8_len(m, ch))
+    for i in range(len(s) - len(p), -1, -1):
+        if str_eq(m, RStr(s[i:i + len(p)]), RStr(p)): return some(offs[i])
+    return none()
+
+
+@model('str::replacen')
+def m_replacen(m, c, a):
+    s, p, r, n = as_rstr(a[0]).chars, _pattern(m, a[1]), as_rstr(a[2]).chars, m.concretize(a[3])
+    out, i, done = [], 0, 0
+    while i < len(s):
+        if done < n and p and i + len(p) <= len(s) and str_eq(m, RStr(s[i:i + len(p)]), RStr(p)):
+            out.extend(r); i += len(p); done += 1
+        else:
+            out.append(s[i]); i += 1
+    return RStr(out)
+
+
+@model('str::strip_prefix')
+def m_strip_prefix(m, c, a):
+    s, p = as_rstr(a[0]).chars, _pattern(m, a[1])
+    if len(p) <= len(s) and str_eq(m, RStr(s[:len(p)]), RStr(p)): return some(StrRef(RStr(s[len(p):])))
+    return none()
+
+
+@model('str::strip_suffix')
+def m_strip_suffix(m, c, a):
+    s, p = as_rstr(a[0]).chars, _pattern(m, a[1])
+    if len(p) <= len(s) and str_eq(m, RStr(s[len(s) - len(p):]), RStr(p)): return some(StrRef(RStr(s[:len(s) - len(p)])))
+    return none()
+
+
+@model('str::split_at')
+def m_split_at(m, c, a):
+    s = as_rstr(a[0]).chars; b = m.concretize(a[1])
+    n = 0; k = None
+    for i, ch in enumerate(s + [None]):
+        if n == b: k = i; break
+        if ch is None: break
+        n += char_utf8_len(m, ch)
+    if k is None: raise RustPanic('byte index is not a char boundary or out of range')
+    return Agg(None, None, None, [StrRef(RStr(s[:k])), StrRef(RStr(s[k:]))])
+
+
+@model('str::as_bytes', 'String::as_bytes')
+def m_as_bytes(m, c, a):
+    s = as_rstr(a[0]).chars
+    if any(not isinstance(ch, str) or ord(ch) > 127 for ch in s): raise Unsupported('as_bytes on non-ASCII / symbolic text')
+    return SliceRef([Cell(ord(ch)) for ch in s], 0, len(s))
+
+
+@model('str::bytes')
+def m_bytes(m, c, a):
+    s = as_rstr(a[0]).chars
+    if any(not isinstance(ch, str) or ord(ch) > 127 for ch in s): raise Unsupported('bytes on non-ASCII / symbolic text')
+    return IterV('own', [Cell(ord(ch)) for ch in s])
